@@ -1,6 +1,7 @@
 package main
 
 import (
+	"archive/tar"
 	"bytes"
 	"fmt"
 	"io"
@@ -842,6 +843,26 @@ func rtDiffCase(r *Rng, out *rtOut) {
 		if err != nil {
 			out.problem("export", fmt.Sprintf("step %d: reading the exported layer failed: %v", k, err))
 			return
+		}
+		// C09 on the exported layer: each path appears at most once (a change list that reports a path twice
+		// would make ExportChanges write its entry twice)
+		{
+			seenName := map[string]int{}
+			tr := tar.NewReader(bytes.NewReader(layer))
+			for {
+				hdr, terr := tr.Next()
+				if terr != nil {
+					break
+				}
+				seenName[strings.TrimSuffix(hdr.Name, "/")]++
+			}
+			out.count("diff/export-names-checked")
+			for n, cnt := range seenName {
+				if cnt > 1 {
+					out.problem("export-unique", fmt.Sprintf("C09: step %d (mutations %v): path %q appears %d times in the exported layer", k, muts[k], n, cnt))
+					break
+				}
+			}
 		}
 		for _, c := range chains {
 			if broken[c] {
